@@ -48,9 +48,52 @@ def _last_element_accesses(ctx, tu, I, R):
     I.unknown[:] = keep
 
 
+def _unbounded_scans(ctx, tu, I, R):
+    """An index built on a local that is stepped (`c++`, `c += k`) inside a loop whose condition never compares that local with
+    anything is unbounded: nothing stops the scan at the end of the table.  This is a definite finding, not an unknown idiom."""
+    import re
+    keep = []
+    for n, fq, what, why in I.unknown:
+        m = re.search(r"atom ([A-Za-z_][A-Za-z_0-9']*) has neither an index kind nor an extent", why or "")
+        handled = False
+        if m:
+            v = m.group(1)
+            try:
+                f = tu.fn(fq)
+            except Exception:
+                f = None
+            if f is not None and f.body is not None:
+                loops_ = sorted([x for x in walk(f.body) if x.get("kind") in ("WhileStmt", "DoStmt", "ForStmt")],
+                                key=lambda x: sum(1 for _ in walk(x)))          # innermost first
+                for lp in loops_:
+                    raw = cxfe.raw_kids(lp)
+                    cond = raw[0] if lp.get("kind") == "WhileStmt" else raw[1] if lp.get("kind") == "DoStmt" else raw[2]
+                    body = raw[1] if lp.get("kind") == "WhileStmt" else raw[0] if lp.get("kind") == "DoStmt" else raw[4]
+                    step = [s_ for s_ in cxa.all_stores(body) if s_.base and s_.base[0] == "var" and s_.base[1] == v and
+                            s_.op in ("++", "--", "+=", "-=")] if body else []
+                    if lp.get("kind") == "ForStmt" and raw[3]:
+                        step += [s_ for s_ in cxa.stores_of_node(strip(raw[3])) if s_.base and s_.base[1] == v]
+                    if not step:
+                        continue
+                    rel = [x for x in walk(cond or {}) if x.get("kind") == "BinaryOperator" and x.get("opcode") in ("<", "<=", ">", ">=", "!=")
+                           and any(uname(strip(k_, casts=True)) == v for k_ in kids(x))]
+                    if rel:
+                        break               # the innermost loop that steps the local bounds it
+                    if not rel:
+                        ctx.violation(R, n, fq, what, "the index local `%s` is stepped in a loop whose condition (`%s`) never "
+                                      "compares it with a bound: the scan runs past the end of the table when no element "
+                                      "satisfies the condition (out-of-bounds read, then write)" % (v.split("'")[0], text(cond)[:60] if cond else ""))
+                        handled = True
+                        break
+        if not handled:
+            keep.append((n, fq, what, why))
+    I.unknown[:] = keep
+
+
 def rule_bounds(ctx, tu, I):
     R = "C11.BOUNDS"
     _last_element_accesses(ctx, tu, I, R)
+    _unbounded_scans(ctx, tu, I, R)
     if I.unknown:
         n, fn, what, why = I.unknown[0]
         ctx.error(R, "%d subscripts are not a mixed-radix form over known kinds, first: %s in %s (%s)"
